@@ -113,6 +113,7 @@ type expSession struct {
 	send2Ch    chan send2Req
 	calls2     []call2                         // data sets the second sender handed in for the first sender's templates
 	scratch    []entities.InfoElementWithValue // the application's re-used element list
+	tscratch   []entities.InfoElementWithValue // ... and the one it builds templates in (AddRecordV2)
 	pool       map[string][]pooledVal          // application-owned address values, handed in again and again
 	persist    map[int][]entities.InfoElementWithValue
 	// C01: called when the application reaches a "cstall" op
@@ -603,7 +604,19 @@ func (s *expSession) opTmpl(i int, op plan.Op) {
 	if err := s.set.PrepareSet(entities.Template, id); err != nil {
 		panic(err)
 	}
-	if err := s.set.AddRecord(elems, id); err != nil {
+	if slot%2 == 1 && len(elems) <= 64 {
+		// AddRecordV2 keeps the slice it is handed - for as long as the set holds the record. The
+		// application re-uses its slice for the next template once this set has been sent and reset.
+		if cap(s.tscratch) < 64 {
+			s.tscratch = make([]entities.InfoElementWithValue, 0, 64)
+		}
+		ts := s.tscratch[:len(elems)]
+		copy(ts, elems)
+		s.env.Count("probe.template_slice_reused_across_sets", 1)
+		if err := s.set.AddRecordV2(ts, id); err != nil {
+			panic(err)
+		}
+	} else if err := s.set.AddRecord(elems, id); err != nil {
 		panic(err)
 	}
 	if op.K == "retmpl" {
